@@ -256,31 +256,40 @@ def _quiet_log():
     return _LOG
 
 
-def _run_hist(acts):
-    """replay one SymMem history on a fresh eval_abs; every expression handed in is built from fresh objects"""
+def _hist_inner(arg):
+    acts, progress = arg
     from miasmx.expression import expression as X
     from miasmx.expression.expression_eval_abstract import eval_abs
     from miasmx.tools import modint as M
     U = {8: M.uint8, 16: M.uint16, 32: M.uint32}
+    m = eval_abs({}, log=_quiet_log())
     obs = []
-    try:
-        m = eval_abs({}, log=_quiet_log())
-        for a in acts:
-            base = X.ExprId('B', 32) if a['b'] == 's' else X.ExprInt(M.uint32(CONST_BASE))
-            addr = X.ExprOp('+', base, X.ExprInt(M.uint32(a['off'])))
-            w = a['w']
-            if a['op'] == 'st':
-                val = X.ExprInt(U[w](const_val(a['k'], w))) if a['vk'] == 'c' else X.ExprId('v%d' % a['k'], w)
-                m.eval_instr([X.ExprAff(X.ExprMem(addr, w), val)])
-                obs.append({'k': 'none'})
-            else:
-                obs.append(EJ.to_json(m.eval_expr(X.ExprMem(addr, w), {}), X))
-        return {'st': 'ok', 'obs': obs, 'cells': _cells(m, X)}
-    except Exception as x:
-        return {'st': 'exc', 'obs': [], 'cells': [], 'exc': irlib.exc_key(x), 'excj': len(obs) + 1}
+    for a in acts:
+        progress[0] += 1
+        base = X.ExprId('B', 32) if a['b'] == 's' else X.ExprInt(M.uint32(CONST_BASE))
+        addr = X.ExprOp('+', base, X.ExprInt(M.uint32(a['off'])))
+        w = a['w']
+        if a['op'] == 'st':
+            val = X.ExprInt(U[w](const_val(a['k'], w))) if a['vk'] == 'c' else X.ExprId('v%d' % a['k'], w)
+            m.eval_instr([X.ExprAff(X.ExprMem(addr, w), val)])
+            obs.append({'k': 'none'})
+        else:
+            obs.append(EJ.to_json(m.eval_expr(X.ExprMem(addr, w), {}), X))
+    return {'st': 'ok', 'obs': obs, 'cells': _cells(m, X)}
 
 
-def _run_prog(item):
+def _run_hist(acts):
+    """replay one SymMem history on a fresh eval_abs; every expression handed in is built from fresh objects.
+    st = ok | exc (exception, at action excj) | timeout (no answer within 10 s, at action excj)"""
+    progress = [0]
+    st, r = irlib.guarded(_hist_inner, (acts, progress), 10)
+    if st == 'ok':
+        return r
+    return {'st': st, 'obs': [], 'cells': [], 'excj': max(1, progress[0]),
+            'exc': r if st == 'exc' else {'exc': 'Timeout', 'func': '', 'line': 'no result within 10 s'}}
+
+
+def _prog_inner(item):
     """emulate one program with emul_lines; the lifted assignments are captured at the call emul_lines itself makes"""
     from miasmx.expression import expression as X
     from miasmx.arch.ia32_arch import x86mnemo
@@ -323,9 +332,14 @@ def _run_prog(item):
         if str(x).startswith('Emulation fails for'):
             # emul_full_expr refuses a rep whose termination it cannot decide (symbolic count / flag): no state to judge
             return {'st': 'declined', 'at': len(cap)}
-        return {'st': 'exc', 'exc': irlib.exc_key(x)}
-    except Exception as x:
-        return {'st': 'exc', 'exc': irlib.exc_key(x)}
+        raise
+
+
+def _run_prog(item):
+    st, r = irlib.guarded(_prog_inner, item, 60)
+    if st == 'ok':
+        return r
+    return {'st': st, 'exc': r if st == 'exc' else {'exc': 'Timeout', 'func': '', 'line': 'no result within 60 s'}}
 
 
 # ---------------------------------------------------------------------------------------------
@@ -471,7 +485,7 @@ def report_hists(chk, recs, verdicts):
         for f in v['v']:
             key = {'kind': 'history', 'clause': f['clause'], 'path': f.get('path', '')}
             detail = {'history': r['acts'], 'history_text': show_hist(r['acts']), 'verdict': f}
-            if f['clause'] == 'C07.noexc':
+            if f['clause'] in ('C07.noexc', 'C07.terminates'):
                 key.update(r['exc'])
             else:
                 j = f.get('j')
@@ -514,7 +528,7 @@ def prog_keys(r, f, diverged):
     """violation classes of one failing clause f of program record r.  diverged = r is the shortest prefix after which
     the symbolic state is wrong: the class is then that of its last instruction (features, worst path of its reads)."""
     c = f['clause']
-    if c == 'C07.noexc':
+    if c in ('C07.noexc', 'C07.terminates'):
         k = {'kind': 'program', 'clause': c, 'path': '', 'feat': prog_features(r)}
         k.update(r['exc'])
         return [k]
@@ -595,7 +609,7 @@ def design_model(chk, maxst):
         cfg = symmem_cfg(ms, 0, range(8), ['c', 's'], ['c'], False, ' AsCoded = %s\n' % ('TRUE' if coded else 'FALSE')) + inv
 
         def build():
-            r = core.run_tlc('SymPool', cfg_text=cfg, timeout=1500)
+            r = core.run_tlc('SymPool', cfg_text=cfg, timeout=1500, workers=1 if coded else core.NCPU)   # one worker: a deterministic counterexample
             if not coded and not r.ok:
                 raise core.MachineryError('SymPool (repaired design) violates its invariants:\n' + r.out[-3000:])
             cex = None
